@@ -55,7 +55,7 @@ class Box:
 Box.__module__ = __name__
 Box.__qualname__ = "Box"
 
-FIELD_NAMES = ["x", "y", "z", "w", "_p"]
+FIELD_NAMES = ["x", "y", "z", "w", "_p", "_x", "_y"]      # `_x` shares its __init__ alias with `x`
 _TOKENS = [p + n for p in ("v_", "m_", "w_") for n in FIELD_NAMES + ["p", "q"]] + [f"t{i}" for i in range(8)]
 _TOK2INT = {t: (0 if t == "v_x" else 1000 + i) for i, t in enumerate(_TOKENS)}   # one falsy int
 _INT2TOK = {v: k for k, v in _TOK2INT.items()}
@@ -214,8 +214,19 @@ def class_source(i, spec, base="object"):
         if spec["slots"]:
             body.append(f"__slots__ = {tuple(spec['plainSlots'])!r}")
         return f"class {name}({base}):\n" + "".join(f"    {ln}\n" for ln in body or ["pass"])
-    fields = [(f["name"], "attr.ib(init=False)" if not f["init"] else
-               (f"attr.ib(factory=_factory_for({f['name']!r}))" if f.get("factory") else "attr.ib()")) for f in spec["fields"]]
+    def ib(f):
+        if not f["init"]:
+            return "attr.ib(init=False)"
+        kw = []
+        if f.get("factory"):
+            kw.append(f"factory=_factory_for({f['name']!r})")
+        elif f.get("default"):
+            kw.append(f"default=_dflt{i}_{f['name']}")       # the very object the field holds when it is not passed
+        if f.get("alias"):
+            kw.append(f"alias={f['alias']!r}")
+        return "attr.ib(" + ", ".join(kw) + ")"
+
+    fields = [(f["name"], ib(f)) for f in spec["fields"]]
     api, front = _api(spec), spec.get("front", "class")
     deco = {"attr.s": "attr.s", "define": "attrs.define", "frozen": "attrs.frozen"}[api]
     if api == "attr.s" and front == "make_class":
@@ -252,6 +263,12 @@ def build_chain(chain, modname, exc=False):
     for i, spec in enumerate(chain):
         if spec["kind"] == "attrs":
             ns[f"_kw{i}"] = _deco_kwargs(spec)
+            for f in spec["fields"]:
+                if f["init"] and f.get("default"):
+                    v = field_value(f, "v_" + f["name"])
+                    ns[f"_dflt{i}_{f['name']}"] = v
+                    if type(v) is Box:
+                        ns.setdefault("_box_defaults", []).append((v, "v_" + f["name"]))
             if exc and (_api(spec) == "attr.s" or spec.get("explicit", True)):
                 ns[f"_kw{i}"]["auto_exc"] = True          # default of define / frozen, opt-in for attr.s
         exec(compile(nested_source(i, spec, base), f"<c10 synthetic {modname}>", "exec"), ns)
@@ -265,7 +282,7 @@ _CACHE_CLASSES: dict = {}
 
 def get_classes(chain, exc=False):
     import json
-    key = json.dumps([dict(c, fields=[{k: v for k, v in f.items() if k != "special"} for f in c["fields"]])
+    key = json.dumps([dict(c, fields=[{k: v for k, v in f.items() if k != "special" or f.get("default")} for f in c["fields"]])
                       for c in chain] + [exc], sort_keys=True)
     got = _CACHE_CLASSES.get(key)
     if got is None:
@@ -303,7 +320,7 @@ def _construct(leaf, fields, tokens, pass_all=True):
     by_name = {a.name: a for a in attr.fields(leaf)}
     kwargs = {}
     for f in fields:
-        if f["init"] and (pass_all or not f.get("factory")):
+        if f["init"] and (pass_all or not (f.get("factory") or f.get("default"))):
             kwargs[by_name[f["name"]].alias] = field_value(f, tokens[f["name"]], leaf, fields)
     return leaf(**kwargs)
 
@@ -346,6 +363,14 @@ def _history(case, leaf, fields, hashed):
             hash(inst)
         except BaseException:  # noqa: BLE001
             pass
+    t = case.get("cfg", {}).get("touch")
+    if t is not None and case.get("mutate") is None:
+        # changed and set back: the field holds the very same object again
+        f = next((f for f in fields if f["name"] == t), None)
+        old = getattr(inst, t, ABSENT)
+        if f is not None and old is not ABSENT:
+            object.__setattr__(inst, t, mk_value(f["kind"], "m_" + t))
+            object.__setattr__(inst, t, old)
     m = case.get("mutate")
     if m is not None:
         f = next(f for f in fields if f["name"] == m)
@@ -422,6 +447,8 @@ def observe(case):
         return blank_obs("other")
     mod, classes = got
     sys.modules[mod.__name__] = mod
+    for box, tag in mod.__dict__.get("_box_defaults", ()):
+        box.tag = tag                      # a shared default object may have been changed in place by an earlier case
     try:
         return _run(case, classes[-1])
     except BaseException as e:  # noqa: BLE001  -- e.g. the constructor of the original raised
